@@ -1,58 +1,29 @@
-// fragment: the fully-decoding parser (parse_value2 / parse_array2 / parse_object2 and helpers) against
-// (a) the grammar as it consumes it (json_grammar_lenient.rs) and (b) the reference EVENT LIST of the text:
-// the pre-order list of visitor calls a reference parse would make (C03: same nesting, array order, members in
-// source order with duplicates kept, counts; scalar payloads delegated to C07 / C09 through `num_event` / `decoded`).
+// fragment: the IN-PLACE decoder behind from_str / from_slice::<Value> on a whole input (parse_dom -> parse_value /
+// parse_array / parse_object / parse_number_inplace over the DOM's private padded copy), against the same grammar
+// and the same reference event list as the copy-out decoder (frag_decode.vt.rs).
+//
+// T9 (assumption of this unit, stated in the evidence): `read.data()` denotes the text as it was when parsing
+// started. `Parser::parse_string_inplace` physically overwrites bytes *inside the string literal it has just
+// consumed* (compaction of escapes through `cur_ptr`); the unit treats that as invisible (`same_doc`). This is sound
+// for everything verified here because the parser only moves forward and never re-reads a consumed literal — with
+// one exception, `Parser::error`, which re-scans the whole buffer for line/column: that interaction is decided
+// separately (Kani `dom_entry_error_position*`, finding F14).
 //@include units/frag_events.vt.rs
 impl<'de, R: Reader<'de>> Parser<R> {
-    // The in-place twins (parse_value / parse_array / parse_object / parse_string_inplace / parse_number_inplace) hand
-    // out `visit_borrowed_*` slices of the reader's own buffer and unescape in place through `cur_ptr`: they are
-    // only sound on the DOM's private padded copy (`PaddedSliceRead`; `Read::cur_ptr` panics). The copy-out parser
-    // verified here works on any reader, so it must never reach them: their contract is `requires false`.
-    #[verifier::external_body]
-    pub fn parse_value<V: JsonVisitor<'de>>(&mut self, visitor: &mut V) -> (res: Result<()>)
-        requires false,
-    { unimplemented!() }
-    #[verifier::external_body]
-    pub fn parse_array<V: JsonVisitor<'de>>(&mut self, vis: &mut V) -> (res: Result<()>)
-        requires false,
-    { unimplemented!() }
-    #[verifier::external_body]
-    pub fn parse_object<V: JsonVisitor<'de>>(&mut self, vis: &mut V) -> (res: Result<()>)
-        requires false,
-    { unimplemented!() }
+//@include units/frag_decode_leaf.vt.rs
+    // wrapper around util::string::parse_string_inplace (raw-pointer compaction loop; CBMC does not finish on it and
+    // Verus cannot take it): acceptance contract + decoded text ASSUMED, same shape as the proved copy-out twin
     #[verifier::external_body]
     pub fn parse_string_inplace<V: JsonVisitor<'de>>(&mut self, vis: &mut V) -> (res: Result<()>)
-        requires false,
-    { unimplemented!() }
-    #[verifier::external_body]
-    pub fn parse_number_inplace<V: JsonVisitor<'de>>(&mut self, first: u8, vis: &mut V) -> (res: Result<()>)
-        requires false,
-    { unimplemented!() }
-
-//@include units/frag_decode_leaf.vt.rs
-    // parse_str: verified scanning half in unit `strings`; acceptance + decoded text assumed here
-    #[verifier::external_body]
-    pub fn parse_str<'own>(&mut self, buf: &'own mut Vec<u8>) -> (res: Result<Reference<'de, 'own, str>>)
-        requires old(self).pinv(),
-        ensures final(self).pinv(), final(self).same_doc(old(self)),
-            res.is_ok() ==> str_end(old(self).read.data(), old(self).read.idx() as int) == Some(final(self).read.idx() as int)
-                && res.unwrap().rbytes() == decoded(old(self).read.data(), old(self).read.idx() as int, final(self).read.idx() - 1),
-            str_end(old(self).read.data(), old(self).read.idx() as int).is_none() ==> res.is_err(),
-            final(self).read.idx() >= old(self).read.idx(),
-    { unimplemented!() }
-
-//@extract file=src/parser.rs impl="Parser<R>" fn=parse_string_owned
-//@subst /rs\.as_ref\(\)/ => rs.as_str_ref()
-//@sig
         requires old(self).pinv(),
         ensures final(self).pinv(), final(self).same_doc(old(self)),
             res.is_ok() ==> str_end(old(self).read.data(), old(self).read.idx() as int) == Some(final(self).read.idx() as int)
                 && final(vis).trace() == old(vis).trace().push(Ev::Str(decoded(old(self).read.data(), old(self).read.idx() as int, final(self).read.idx() - 1))),
             str_end(old(self).read.data(), old(self).read.idx() as int).is_none() ==> res.is_err(),
             final(self).read.idx() >= old(self).read.idx(),
-//@end
+    { unimplemented!() }
 
-//@extract file=src/parser.rs impl="Parser<R>" fn=parse_number_visit
+//@extract file=src/parser.rs impl="Parser<R>" fn=parse_number_inplace
 //@sig
         requires old(self).pinv(), old(self).read.idx() >= 1,
             first == old(self).read.data()[old(self).read.idx() - 1], first == 0x2d || is_digit(first),
@@ -71,7 +42,7 @@ impl<'de, R: Reader<'de>> Parser<R> {
             proof { lemma_lenient_extends_grammar(self.read.data(), if at(self.read.data(), self.read.idx() - 1, 0x2d) { self.read.idx() as int } else { self.read.idx() - 1 }); }
 //@end
 
-//@extract file=src/parser.rs impl="Parser<R>" fn=parse_value2
+//@extract file=src/parser.rs impl="Parser<R>" fn=parse_value
 //@sig
         requires old(self).pinv(),
         ensures final(self).pinv(), final(self).same_doc(old(self)),
@@ -79,13 +50,13 @@ impl<'de, R: Reader<'de>> Parser<R> {
             res.is_ok() ==> value_end_l(old(self).read.data(), old(self).read.idx() as int) == Some(final(self).read.idx() as int),
             value_end_l(old(self).read.data(), old(self).read.idx() as int).is_none() ==> res.is_err(),
             // the visitor saw exactly the reference event list of the value, in order
-            res.is_ok() ==> final(vis).trace() == old(vis).trace() + value_events(old(self).read.data(), old(self).read.idx() as int, old(self).cfg.use_rawnumber),
+            res.is_ok() ==> final(visitor).trace() == old(visitor).trace() + value_events(old(self).read.data(), old(self).read.idx() as int, old(self).cfg.use_rawnumber),
             final(self).read.idx() >= old(self).read.idx(),
         decreases old(self).read.data().len() - old(self).read.idx(), 0nat
 //@before /match self\.skip_space\(\) \{/
         let ghost s = self.read.data();
         let ghost i0 = self.read.idx() as int;
-        let ghost t0 = vis.trace();
+        let ghost t0 = visitor.trace();
         proof {
             lemma_ws_end_bounds(s, i0);
             lemma_seq_push(t0, Ev::Null); lemma_seq_push(t0, Ev::Bool(true)); lemma_seq_push(t0, Ev::Bool(false));
@@ -97,7 +68,7 @@ impl<'de, R: Reader<'de>> Parser<R> {
         }
 //@end
 
-//@extract file=src/parser.rs impl="Parser<R>" fn=parse_array2
+//@extract file=src/parser.rs impl="Parser<R>" fn=parse_array
 //@attr
     #[verifier::loop_isolation(false)]
 //@sig
@@ -105,14 +76,14 @@ impl<'de, R: Reader<'de>> Parser<R> {
         ensures final(self).pinv(), final(self).same_doc(old(self)),
             res.is_ok() ==> arr_end_l(old(self).read.data(), old(self).read.idx() as int) == Some(final(self).read.idx() as int),
             arr_end_l(old(self).read.data(), old(self).read.idx() as int).is_none() ==> res.is_err(),
-            res.is_ok() ==> final(visitor).trace() == old(visitor).trace() + seq![Ev::ArrStart]
+            res.is_ok() ==> final(vis).trace() == old(vis).trace() + seq![Ev::ArrStart]
                 + arr_rest_events(old(self).read.data(), old(self).read.idx() as int, old(self).cfg.use_rawnumber),
             final(self).read.idx() >= old(self).read.idx(),
         decreases old(self).read.data().len() - old(self).read.idx(), 2nat
-//@before /check_visit!\(self, visitor\.visit_array_start/
+//@before /check_visit!\(self, vis\.visit_array_start/
         let ghost s = self.read.data();
         let ghost i0 = self.read.idx() as int;
-        let ghost t0 = visitor.trace();
+        let ghost t0 = vis.trace();
         let ghost raw = self.cfg.use_rawnumber;
         let ghost goal = t0 + seq![Ev::ArrStart] + arr_rest_events(s, i0, raw);
         proof {
@@ -133,12 +104,12 @@ impl<'de, R: Reader<'de>> Parser<R> {
                 count <= self.read.idx() - i0,
                 first.is_some() ==> self.read.idx() >= 1 && i0 <= self.read.idx() - 1 && first == Some(s[self.read.idx() - 1]) && !is_ws(s[self.read.idx() - 1])
                     && arr_end_l(s, i0) == elems_end_l(s, self.read.idx() - 1)
-                    && goal == visitor.trace() + elems_events(s, self.read.idx() - 1, count as nat, raw),
+                    && goal == vis.trace() + elems_events(s, self.read.idx() - 1, count as nat, raw),
                 first.is_none() ==> arr_end_l(s, i0).is_none(),
             decreases s.len() - self.read.idx(),
 //@before /^            match first \{/
             let ghost vs = self.read.idx() as int - 1;
-            let ghost th = visitor.trace();
+            let ghost th = vis.trace();
             proof {
                 if first.is_some() {
                     lemma_ws_end_stop(s, vs, vs);
@@ -152,12 +123,12 @@ impl<'de, R: Reader<'de>> Parser<R> {
             let ghost e = self.read.idx() as int;
             proof {
                 assert(value_end_l(s, vs) == Some(e));
-                assert(visitor.trace() == th + value_events(s, vs, raw));
+                assert(vis.trace() == th + value_events(s, vs, raw));
                 lemma_value_end_l_bounds(s, vs);
                 lemma_ws_end_bounds(s, e);
                 let q = ws_end(s, e);
                 lemma_seq_assoc(th, value_events(s, vs, raw), seq![Ev::ArrEnd((count + 1) as nat)]);
-                lemma_seq_push(visitor.trace(), Ev::ArrEnd((count + 1) as nat));
+                lemma_seq_push(vis.trace(), Ev::ArrEnd((count + 1) as nat));
                 if q < s.len() && s[q] == 0x2c {
                     lemma_ws_end_bounds(s, q + 1);
                     let v2 = ws_end(s, q + 1);
@@ -168,7 +139,7 @@ impl<'de, R: Reader<'de>> Parser<R> {
             }
 //@end
 
-//@extract file=src/parser.rs impl="Parser<R>" fn=parse_object2
+//@extract file=src/parser.rs impl="Parser<R>" fn=parse_object
 //@attr
     #[verifier::loop_isolation(false)]
 //@sig
@@ -197,15 +168,15 @@ impl<'de, R: Reader<'de>> Parser<R> {
                 obj_end_l(s, i0) == members_end_l(s, self.read.idx() as int),
                 goal == vis.trace() + members_events(s, self.read.idx() as int, count as nat, raw),
             decreases s.len() - self.read.idx(),
-//@before /self\.parse_string_owned\(vis, strbuf\)\?;/
+//@before /self\.parse_string_inplace\(vis\)\?;/
             let ghost ki = self.read.idx() as int;
             let ghost th = vis.trace();
-//@after /self\.parse_string_owned\(vis, strbuf\)\?;/
+//@after /self\.parse_string_inplace\(vis\)\?;/
             let ghost k = self.read.idx() as int;
             proof { lemma_str_end_bounds(s, ki); lemma_ws_end_bounds(s, k); lemma_seq_push(th, Ev::Str(decoded(s, ki, k - 1))); }
 //@after /self\.parse_object_clo\(\)\?;/
             let ghost vi = self.read.idx() as int;
-//@after /self\.parse_value2\(vis, strbuf\)\?;/
+//@after /self\.parse_value\(vis\)\?;/
             let ghost e = self.read.idx() as int;
             proof {
                 lemma_value_end_l_bounds(s, vi);
@@ -224,5 +195,14 @@ impl<'de, R: Reader<'de>> Parser<R> {
                     }
                 }
             }
+//@end
+
+//@extract file=src/parser.rs impl="Parser<R>" fn=parse_dom
+//@sig
+        requires old(self).pinv(),
+        ensures final(self).pinv(), final(self).same_doc(old(self)),
+            res.is_ok() ==> value_end_l(old(self).read.data(), old(self).read.idx() as int) == Some(final(self).read.idx() as int),
+            value_end_l(old(self).read.data(), old(self).read.idx() as int).is_none() ==> res.is_err(),
+            res.is_ok() ==> final(vis).trace() == old(vis).trace() + value_events(old(self).read.data(), old(self).read.idx() as int, old(self).cfg.use_rawnumber),
 //@end
 }
